@@ -60,3 +60,11 @@ def prebuild(ctxs):
         except Exception as e:  # noqa: BLE001
             out.append(e)
     return out
+
+
+def theorems(prop):
+    """Names of the theorems in coq/Properties/<prop>.v (kept in harness/theorems.json)."""
+    import json
+    import os
+    path = os.path.join(os.path.dirname(os.path.dirname(os.path.abspath(__file__))), 'theorems.json')
+    return json.load(open(path)).get(prop, [])
